@@ -6,6 +6,7 @@ cd /repo || exit 2
 if ! git diff --quiet; then echo "/repo has uncommitted changes"; exit 2; fi
 git apply "$P" || { echo "patch does not apply"; exit 2; }
 trap 'git -C /repo checkout -- . ; git -C /repo clean -fdq src tests' EXIT
+trap 'exit 143' TERM INT HUP
 cd /verif
 for id in "$@"; do
   s=$(date +%s)
